@@ -55,7 +55,8 @@ def run_one(prop, diff, expect, benign=False):
             if r.returncode == 0:
                 return "silent-ok", ""
             return "false-alarm", "\n".join(l for l in out.splitlines() if "finding:" in l)[:600]
-        hit = [l for l in out.splitlines() if "finding:" in l and expect in l]
+        exps = expect if isinstance(expect, (list, tuple)) else [expect]
+        hit = [l for l in out.splitlines() if "finding:" in l and any(x in l for x in exps)]
         if r.returncode == 1 and hit:
             return "detected", hit[0].strip()[:300]
         if r.returncode not in (0, 1):
